@@ -209,6 +209,18 @@ def main_check(pid, tier, seed, write_evidence=True):
         return 2
     names, ok, bad = audit.property_obligations(a, pid)
     obligations_broken = list(bad) + (["forbidden construct: " + h for h in a["forbidden"]])
+    leanchecker = None
+    if tier == "thorough":
+        # independent re-check of the compiled proof modules of this property
+        import subprocess
+        mods = sorted({"PymoodeProofs." + n.split(".")[1] for n in names if n.startswith("Pymoode.C")})
+        t1 = time.time()
+        pr = subprocess.run(["lake", "env", "leanchecker"] + mods, cwd=os.path.join(VERIF, "lean"),
+                            stdout=subprocess.PIPE, stderr=subprocess.STDOUT)
+        leanchecker = {"modules": mods, "returncode": pr.returncode, "wall_s": round(time.time() - t1, 1),
+                       "tail": pr.stdout.decode()[-300:]}
+        if pr.returncode != 0:
+            obligations_broken.append("leanchecker rejects " + " ".join(mods))
 
     # 2./3. correspondence + oracles
     import multiprocessing as mp
@@ -354,6 +366,7 @@ def main_check(pid, tier, seed, write_evidence=True):
                 "checker_cmd": "cd lean && lake build && lake env lean <#print axioms of every listed theorem> (harness/audit.py; cached by source hash: %s)" % ("cache hit" if a.get("cached") else "re-run"),
                 "trusted_base": PLAN.TRUSTED_BASE + spec.get("trusted", []),
                 "theorems": {n: a["theorems"].get(n, {}).get("axioms") for n in names},
+                "leanchecker": leanchecker,
                 "evaluations": evaluations,
                 "distinct_nontrivial": len(sigs),
                 "rule": spec.get("rule", ""),
